@@ -2045,11 +2045,11 @@ class CodeGenerator(NodeVisitor):
                 self.visit(node.expr2, frame)
                 return
 
-            self.write(
-                f'cond_expr_undefined("the inline if-expression on'
-                f" {self.position(node)} evaluated to false and no else"
-                f' section was defined.")'
+            message = (
+                f"the inline if-expression on {self.position(node)}"
+                " evaluated to false and no else section was defined."
             )
+            self.write(f"cond_expr_undefined({message!r})")
 
         self.write("(")
         self.visit(node.expr1, frame)
